@@ -62,7 +62,10 @@ def pipeline(ws, outdir, brs, bs, e1, ey, events, cache=None):
     }
     branches = []
     for b in brs:
-        if b["c"] == "xy":
+        if b.get("a", "hist") == "mean":
+            import lena.math
+            branches.append((Compose(part[b["p"]], coord[b["c"]]), lena.math.Mean()))
+        elif b["c"] == "xy":
             branches.append((part[b["p"]], Combine(coord["x"], coord["y"], name="xy"),
                              Histogram([list(e1), list(ey)]),
                              MakeFilename("{{variable.particle.name}}/2d_{{variable.name}}")))
@@ -157,7 +160,9 @@ def execute_run(ws, outdir, brs, bs, e1, ey, data, tpl, cache=None):
         co = var.get("coordinate", {})
         comp = var.get("compose")
         stem = os.path.splitext(os.path.relpath(path, outdir))[0] if isinstance(path, str) else "?"
+        number = path if isinstance(path, (int, float)) and not isinstance(path, bool) else None
         out.append({
+            "number": number, "filename": ctx.get("output", {}).get("filename"),
             "path_name": stem.split(os.sep), "ext": os.path.splitext(path)[1][1:] if isinstance(path, str) else "?",
             "filetype": ctx.get("output", {}).get("filetype"),
             "name": [part.get("name", "-") if isinstance(part, dict) else "?",
@@ -168,7 +173,7 @@ def execute_run(ws, outdir, brs, bs, e1, ey, data, tpl, cache=None):
                     "dim": var.get("dim", 1),
                     "source": ctx.get("source", {}).get("name", "-") if isinstance(ctx.get("source", {}), dict) else "?"},
             "context_keys": sorted(ctx),
-            "dim": hctx.get("dim"), "oor": hctx.get("n_out_of_range"),
+            "dim": hctx.get("dim", 0), "oor": hctx.get("n_out_of_range", 0),
         })
     files = {}
     if os.path.isdir(outdir):
@@ -238,13 +243,24 @@ def replay_history(rec, root):
             n += 1
             # ---- yielded values: one png per branch, described by that branch's variables
             # (LaTeXToPDF is asynchronous: the order of the results is not compared)
-            want_out = sorted(run["out"], key=lambda o: o["name"])
-            got = sorted(obs["out"], key=lambda g: g["name"])
+            want_out = sorted(run["out"], key=lambda o: (o["name"], o["dim"]))
+            got = sorted(obs["out"], key=lambda g: (g["name"], g["dim"]))
             if len(got) != len(want_out):
                 fail("number-of-results", j, {"got": got, "want": want_out})
                 break
             for g, w in zip(got, want_out):
                 n += 1
+                if w["dim"] == 0:
+                    # a number from a Mean branch: selected by nothing, it arrives as it was computed
+                    if g["number"] is None or g["number"] != float(w["bins"][0]) / float(w["bins"][1]):
+                        fail("number-passed-through-the-output-chain", j, {"got": g, "want": w})
+                        break
+                    if g["name"] != list(w["name"]) or g["filename"] != "/".join(w["name"]) or g["filetype"] is not None \
+                            or g["var"] != dict(w["var"], compose=list(w["var"]["compose"])) \
+                            or g["context_keys"] != ["output", "source", "variable"]:
+                        fail("number-context", j, {"got": g, "want": w})
+                        break
+                    continue
                 if g["name"] != list(w["name"]) or g.get("path_name") != list(w["name"]) or g.get("ext") != "png" \
                         or g.get("filetype") != "png":
                     fail("result-names-another-plot", j, {"got": g, "want": w})
@@ -297,8 +313,10 @@ COORDS = ("x", "y", "xy")
 def record_history(rnd, root):
     """C2S.  One seeded random analysis history on the real code -> list of records for Trace_Analysis.tla
     (or a list ending with {"raised": ...})."""
-    allbr = [{"p": p, "c": c} for p in PARTS for c in COORDS]
+    allbr = [{"p": p, "c": c, "a": "hist"} for p in PARTS for c in COORDS]
     brs = rnd.sample(allbr, rnd.randint(1, 5))
+    for _ in range(rnd.choice([0, 0, 1, 2])):
+        brs.insert(rnd.randint(0, len(brs)), {"p": rnd.choice(PARTS), "c": rnd.choice(["x", "y"]), "a": "mean"})
     bs = rnd.choice([1, 2, 3, 5, 1000])
     e1 = sorted(rnd.sample(range(-3, 9), rnd.randint(2, 5)))
     ey = sorted(rnd.sample(range(-3, 9), rnd.randint(2, 3)))
@@ -333,8 +351,14 @@ def record_history(rnd, root):
                              "ed": [e1, ey], "src": data, "tpl": tpl, "usecache": usecache})
                 break
             # the order of the results is not fixed for an asynchronous converter: branch order where possible
-            order = dict((tuple([b["p"], "2d_xy" if b["c"] == "xy" else b["c"]]), k) for k, b in enumerate(brs))
-            out = sorted(obs["out"], key=lambda g: order.get(tuple(g["name"]), 99))
+            order = {}
+            for k, b in enumerate(brs):
+                order.setdefault((b["p"], "2d_xy" if b["c"] == "xy" else b["c"], b["a"] == "mean"), []).append(k)
+            slots = []
+            for g in obs["out"]:
+                free = order.get((g["name"][0], g["name"][1], g["number"] is not None), [])
+                slots.append(free.pop(0) if free else 99)
+            out = [g for _, g in sorted(zip(slots, obs["out"]), key=lambda t: t[0])]
             recs.append({
                 "first": j == 0, "brs": brs, "bs": bs, "ed": [e1, ey], "src": copy.deepcopy(data), "tpl": tpl, "usecache": usecache,
                 "files": [{"key": [list(k[0]), k[1]], "c": c} for k, c in sorted(obs["files"].items())],
@@ -349,6 +373,14 @@ def record_history(rnd, root):
 
 
 def _bins_of(obs, g):
+    if g["number"] is not None:
+        from fractions import Fraction
+        fr = Fraction(g["number"]).limit_denominator(64)
+        return [fr.numerator, fr.denominator]
+    return _hist_bins_of(obs, g)
+
+
+def _hist_bins_of(obs, g):
     """The bins of a result are read back from its csv (the results carry file paths, not histograms):
     contents of the rows that are not duplicates of the last bin."""
     rows = obs["files"].get((tuple(g["name"]), "csv"))
